@@ -23,6 +23,7 @@ struct RunResult {
   std::vector<std::string> incidental;        // other properties' clauses that fired (never change the verdict)
   std::vector<uint32_t> decisions;            // scheduler decision vector of the (last) simulated section
   std::string sample;                         // short human-readable rendering of the case
+  util::Json patch;                           // top-level plan keys to overwrite in the candidate (narrows a multi-part run to the failing part)
 
   util::Json toJson() const;
   static RunResult fromJson(const util::Json& j);
